@@ -118,6 +118,8 @@ class Assign(H.RequestAdapter):
         elif self.what == 'envelope':
             if not isinstance(req_args.data, bytes):
                 req_args.data = {'env': req_args.data}
+        elif self.what == 'address':
+            req_args.address = "http://mirror.example/m"        # (the request goes to another server)
         else:
             req_args.method = 'OPTIONS'
 
@@ -215,16 +217,18 @@ def build(rng, log):
         if r < 0.25 and not auth_used:
             auth_used = True
             kind = rng.choice(['b', 'c', 't', 'k'])
+            # (some secrets are long generated ones)
+            secret = rng.choice(["p@ss é", "sec", "S3cr3t/" * 11, "k" * 57, "é" * 40])
             if kind == 'k':
                 tag = "k%d" % rng.randrange(10 ** 6)
                 conn = H.HttpConn(conn, adapters=[KeyInPath(tag, log)])
                 layers.append([('prefix', "/key/K"), ('rec', tag)])
             elif kind == 'b':
-                conn = H.BAuthConn(conn, "us:er", "p@ss é")
-                layers.append([('auth', "Basic", "us:er:p@ss é")])
+                conn = H.BAuthConn(conn, "us:er", secret)
+                layers.append([('auth', "Basic", "us:er:" + secret)])
             elif kind == 'c':
-                conn = H.ClientAuthConn(conn, "nm", "cid", "sec")
-                layers.append([('auth', "Basic", "cid:sec")])
+                conn = H.ClientAuthConn(conn, "nm", "cid", secret)
+                layers.append([('auth', "Basic", "cid:" + secret)])
             else:
                 conn = H.TokenAuthConn(conn, "tok123")
                 layers.append([('auth', "Bearer", "tok123")])
@@ -237,7 +241,7 @@ def build(rng, log):
                     ads.append(H.RequestAdapterAddPathPrefix(p))
                     own.append(('prefix', p))
                 elif rng.random() < 0.15:
-                    what = rng.choice(['apikey', 'envelope', 'method'])
+                    what = rng.choice(['apikey', 'envelope', 'method', 'address'])
                     ads.append(Assign(what))
                     own.append(('assign', what))
                 elif rng.random() < 0.25:
@@ -272,6 +276,8 @@ def expected(address, layers, path, method, params, data, headers):
             elif a[1] == 'envelope':
                 if not isinstance(data, bytes):
                     data = {'env': data}
+            elif a[1] == 'address':
+                address = ("raw", "http://mirror.example/m")
             else:
                 method = 'OPTIONS' 
     if params:
@@ -350,6 +356,11 @@ def _run_history(ctx, rng, case):
         if req.data != body:
             fail("wrong-body-encoding", {"step": tag, "got": repr(req.data), "expected": repr(body)})
         got = {k.lower(): v for k, v in req.header_items()}
+        for k, v in got.items():
+            text = v.decode('latin-1') if isinstance(v, bytes) else str(v)
+            if "\n" in text or "\r" in text:
+                # (http.client refuses to send such a header: the request would never leave)
+                fail("header-value-cannot-be-sent", {"step": tag, "header": k, "value": text[:80]})
         got.pop('x-request-id', None)
         for k, v in hdr.items():
             g = got.pop(k.lower(), None)
@@ -361,7 +372,7 @@ def _run_history(ctx, rng, case):
                 val = g[len(kind) + 1:]
                 if kind == "Basic":
                     try:
-                        val = base64.b64decode(val).decode()
+                        val = base64.b64decode(val, validate=True).decode()     # (strictly: what a server does)
                     except Exception:
                         fail("authorization-does-not-decode", {"step": tag, "got": g})
                 if val != cred:
